@@ -76,7 +76,7 @@ def latOut (L : Lat) (ps : List Rat) (xcodes : List Rat) : List (String × Json)
    ("frac", ratsToJson (ps.map L.frac)), ("clipped", ratsToJson (ps.map L.clipped)),
    ("xcode", boolsToJson (xcodes.map L.isCode)), ("post", ratToJson L.post)]
 
-def handle (j : Json) : Except String Json := do
+def handleQ (j : Json) : Except String Json := do
   let op ← getStr j "op"
   match op with
   | "consts" =>
@@ -260,5 +260,31 @@ def handle (j : Json) : Except String Json := do
     let shape ← getNatList j "shape"
     pure <| Json.mkObj [("ok", Json.bool (binaryInferShapeOk shape))]
   | _ => throw s!"unknown op {op}"
+
+/-- op "layer": a history of calls on ONE layer object, run through `QKV.Stoch.layerRun` (the
+    definition the `C08_layer_*` / `C08_qactivation_*` theorems are about).  Every call is a complete
+    "q" line (class, options, input, draws, phase) plus "sig" (id of the input signature); the quantizer
+    handed to `layerRun` evaluates that line with the phase and the draws the LAYER passes on, so for
+    `traced = true` a replayed call is evaluated with the phase / draws recorded at trace time. -/
+def handle (j : Json) : Except String Json := do
+  let op ← getStr j "op"
+  if op == "layer" then
+    let traced ← getBool j "traced"
+    let calls ← match j.getObjVal? "calls" with
+      | .ok (.arr a) => pure a.toList
+      | _ => throw "layer: calls must be an array"
+    let hist : List (LCall Json (Json × Json)) ← calls.mapM fun c => do
+      pure { phase := ← getBool c "phase", sig := ← getNat c "sig", x := c,
+             u := ((c.getObjVal? "u1").toOption.getD .null, (c.getObjVal? "u2").toOption.getD .null) }
+    let q := fun (ph : Bool) (line : Json) (u : Json × Json) =>
+      let l1 := line.setObjVal! "phase" (Json.bool ph)
+      let l2 := if u.1.isNull then l1 else l1.setObjVal! "u1" u.1
+      let l3 := if u.2.isNull then l2 else l2.setObjVal! "u2" u.2
+      handleQ l3
+    let outs ← (layerRun traced q [] hist).mapM id
+    pure <| Json.mkObj [("outs", Json.arr outs.toArray),
+                        ("qactivation_traced", Json.bool qactivationTraced),
+                        ("predict_traced", Json.bool kerasPredictTraced)]
+  else handleQ j
 
 def main : IO Unit := lineLoop handle
